@@ -47,6 +47,10 @@ impl RunCfg {
 pub struct CaseInfo {
 	pub nontrivial: bool,
 	pub classes: Vec<String>,
+	/// number of individual evaluations this case stands for (batched sweeps); 0 means 1
+	pub weight: u64,
+	/// number of distinct non-trivial evaluations inside a batched case (added to the count)
+	pub nontrivial_weight: u64,
 }
 
 impl CaseInfo {
@@ -64,6 +68,8 @@ pub struct Stats {
 	pub class_samples: BTreeMap<String, Value>,
 	pub exhaustive: bool,
 	pub notes: Vec<String>,
+	/// distinct non-trivial evaluations counted inside batched cases
+	pub extra_nontrivial: u64,
 }
 
 #[derive(Debug, Clone)]
@@ -157,8 +163,9 @@ const MAX_SAMPLES: usize = 4;
 const MAX_CLASS_SAMPLES: usize = 24;
 
 fn record(shared: &Shared, case_json: impl FnOnce() -> Value, info: &CaseInfo) {
-	shared.evals.fetch_add(1, Ordering::Relaxed);
+	shared.evals.fetch_add(info.weight.max(1), Ordering::Relaxed);
 	let mut st = shared.stats.lock().unwrap();
+	st.extra_nontrivial += info.nontrivial_weight;
 	for c in &info.classes {
 		*st.classes.entry(c.clone()).or_insert(0) += 1;
 	}
@@ -448,7 +455,7 @@ pub fn run_property(def: &PropertyDef, cfg: &RunCfg, only_sub: Option<&str>) -> 
 			println!("VIOLATION property={} replay={}", def.id, path);
 		}
 		total_evals += res.stats.evaluations;
-		total_nt += res.stats.nontrivial.len() as u64;
+		total_nt += res.stats.nontrivial.len() as u64 + res.stats.extra_nontrivial;
 		if res.stats.exhaustive {
 			exhaustive_subspaces.push(sub.name.to_string());
 		} else {
@@ -465,7 +472,7 @@ pub fn run_property(def: &PropertyDef, cfg: &RunCfg, only_sub: Option<&str>) -> 
 			sub.name.to_string(),
 			json!({
 				"evaluations": res.stats.evaluations,
-				"distinct_nontrivial": res.stats.nontrivial.len(),
+				"distinct_nontrivial": res.stats.nontrivial.len() as u64 + res.stats.extra_nontrivial,
 				"exhaustive": res.stats.exhaustive,
 				"classes": res.stats.classes,
 				"class_samples": class_samples,
@@ -480,7 +487,7 @@ pub fn run_property(def: &PropertyDef, cfg: &RunCfg, only_sub: Option<&str>) -> 
 			variant_name(),
 			sub.name,
 			res.stats.evaluations,
-			res.stats.nontrivial.len(),
+			res.stats.nontrivial.len() as u64 + res.stats.extra_nontrivial,
 			dt,
 			if res.failure.is_some() { "  ** FAILED **" } else { "" }
 		);
